@@ -292,7 +292,8 @@ func (r *Resolver) onDouble(g *Scope, name string, t *parser.Type, v *parser.Con
 			return "0.0", nil
 		}
 		if val, ok := r.getIDValue(g, v.Extra); ok {
-			return val, nil
+			// the referenced constant may be a typed integer
+			return "float64(" + val + ")", nil
 		}
 		return "", fmt.Errorf("undefined value: %q", s)
 	}
